@@ -41,7 +41,7 @@ func main() {
 			"After each stimulus a barrier request decides whether the server answered. Non-trivial: a sequence containing at least one must-respond and one must-be-silent stimulus; distinct by the sequence text. " +
 			"Extension strata (same construction, own case-name prefixes): ecds/ (sidecar, ECDS from EnvoyFilter EXTENSION_CONFIG patches and a WasmPlugin), sds/ (router on an authenticated stream, kubernetes:// secrets), " +
 			"amb/ (ztunnel node, delta only: istio.workload.Address with explicit subscribe/unsubscribe letters over {*,pod ip,service vip,node-local pod ip,unknown ip} in wildcard and on-demand mode, and istio.security.Authorization), " +
-			"grpc/ (Metadata.Generator=grpc, SotW, every type by name), api/ (Metadata.Generator=api, ServiceEntry kind as a wildcard type); forced and keyed push letters; thorough enumerates length 3 of the extension strata over the alphabet without the garbage nonce, quick only those of length 3 that start with an unsubscribe of the warmed ECDS / SDS type (every way of re-opening a type whose record the server has deleted). " +
+			"grpc/ (Metadata.Generator=grpc, SotW, every type by name), api/ (Metadata.Generator=api, ServiceEntry kind as a wildcard type); forced and keyed push letters; hp/ (the legacy world with the workload health probe, healthy/unhealthy, with/without node, as a letter that may stand anywhere, first included; only sequences with a probe); thorough enumerates length 3 of the extension strata over the alphabet without the garbage nonce (not for Address on a wildcard-warmed stream; hp/: only sequences led by a probe), quick only those of length 3 that start with an unsubscribe of the warmed ECDS / SDS type (every way of re-opening a type whose record the server has deleted). " +
 			"conc/: a conformant auto-ACKing client runs a PRNG conversation while a pusher goroutine issues forced and keyed ConfigUpdates at PRNG points without any barrier; judged only on crash, bounded responses, silence within K ACK rounds once the control plane is idle, final record = last request, nonce uniqueness.",
 		Assumptions: []string{
 			"the executable protocol model is our reading of the xDS protocol as restated by the property (first request / added names / reconnect => respond; ACK, NACK, stale nonce => silent); anything else is unspecified and only counted towards the loop bound",
@@ -50,6 +50,8 @@ func main() {
 			"generator-managed Address subscriptions: the generator adds names (uid / namespace/hostname form) to the record by itself, so the record clause compares the record restricted to the names the client can mention (network/ip form) and the Wildcard flag; switching between wildcard and named mode after the opening request, explicit names on a wildcard subscription, re-subscription of a name already on record and unsubscribe-only requests are unspecified",
 			"features.EnableAmbient is switched on in-process for the ambient server only (the flags derived from it at init keep their non-ambient defaults)",
 			"SotW nonces are scoped to the stream: while the server has sent nothing for a type since its record was (re)created there is no current nonce and 'stale' is undefined, so a stale/garbage nonce is unspecified there; a nonce presented after the client itself re-opened the type with an empty nonce (and got no reply) is unspecified too (self-contradicting client). A re-open that carries the nonce the client holds keeps its must-respond obligations",
+			"a barrier that is not echoed while two consecutive stop-the-world snapshots (internal/idle) show every goroutine of the process parked where only another goroutine can wake it will never be echoed: the server has stopped processing the stream (decided logically, not by a timeout)",
+			"every sequence ends with the client cancelling the stream; the handler must return without a panic (requests still buffered in the server are processed on the way out)",
 			"concurrent stratum: schedules are not reproducible; a witness carries the script, and the message order can be replayed as a sequential case with stale-nonce letters",
 		},
 		Anchors:          []string{"pkg/xds/server.go", "pilot/pkg/xds/delta.go", "pilot/pkg/xds/ads.go"},
@@ -402,10 +404,16 @@ func enumerateWorld(w *world, fullLen, maxLen int) []seqCase {
 						}
 					}
 				}
-				if maxLen > fullLen {
+				// budget: length 3 is skipped for Address on a wildcard-warmed stream (nearly everything there is
+				// unspecified), and in the health world it is restricted to sequences led by a probe (the case the
+				// receive loops treat specially; probes further in are covered up to length 2 and by the PRNG stream)
+				if maxLen > fullLen && !(managed[t] && warm == "warmed-wild") {
 					// only the sequences longer than fullLen are new
 					var rec2 func(prefix []letter)
 					rec2 = func(prefix []letter) {
+						if w.health && len(prefix) == 1 && !prefix[0].Health {
+							return
+						}
 						if len(prefix) > fullLen {
 							allPush := true
 							for _, l := range prefix {
